@@ -145,7 +145,7 @@ def scenario(params, ch):
         if "by" in opts:
             add_bystander(w, mon)     # a second client of the same server exchanging traffic of every kind, perfect link
             w.run(3)
-        w.fates = FATES
+        w.fates = FATES if "sf" not in opts else ["sendfail", "drop"]
         if "cbraise" in opts:
             # the application's callback of the FIRST message raises when it is told False / whenever it is called
             w.cb_raise["m0"] = False
@@ -304,6 +304,10 @@ def params_list(tier):
         for msgs in ((("small", "retry"), ("small", "none")), (("frag2", "retry"),), (("small", "best"),), (("frag2", "none"),)):
             out.append((direction, msgs, None, 0, "cs|wrap", 1))
             out.append((direction, msgs, ("s2c" if direction == "c2s" else "c2s", 0, 70), 0, "cs|wrap", 1))
+        # the client's socket refuses one send (sendto raises inside update()): every callback still fires once, truthfully
+        if direction == "c2s":
+            for msgs in ((("small", "none"),), (("small", "retry"), ("small", "none")), (("small", "best"),), (("frag2", "retry"),), (("frag2", "none"),)):
+                out.append((direction, msgs, None, 0, "cs|sf", 1))
         # fragmented messages whose last fragment sits at the capacity boundary
         for size in ("fragEdge", "fragEdge+1", "fragEdgeP", "fragEdge2"):
             for retry in (("none", "retry") if tier == "quick" else ("none", "retry", "best")):
